@@ -572,6 +572,27 @@ def run_config_case(ck, drv, sg, spec):
         shutil.rmtree(tmp, ignore_errors=True)
 
 
+def check_fuses_edge(ck, drv, se, spec):
+    """PROGRAM_FUSES with a partial word (spec['ops'] = add fuses, add tail, export): refused by implementation and model, or decodes exactly."""
+    t, tail = spec["ops"][0][1:], spec["ops"][1][1:]
+    built = pyres(build_real, spec)
+    if built[0] != "ok" or drv is None:
+        return
+    sb = built[1][0]
+    r = pyres(lambda: (sb.sb_commands.add_command(mk_cmd(t)), sb.sb_commands.add_command(mk_cmd(tail))))
+    ans = drv.ask("enc " + " ".join(t))
+    se.compare(spec, r[0], ans if ans.startswith("E:") else "ok", "constructor of PROGRAM_FUSES with a partial word: implementation vs model")
+    if r[0] == "E:spsdk":
+        return  # refused: nothing is built
+    res = pyres(sb.export)
+    if not se.expect(res[0] == "ok", spec, "export raises for PROGRAM_FUSES data that was accepted by the constructor", res):
+        return
+    rom = parse_rom(drv.ask(rom_line(dict(spec, ts=int(sb.timestamp)), res[1])))
+    se.expect(rom is not None and rom["cmds"] == [" ".join(t), " ".join(tail)], spec,
+              "PROGRAM_FUSES data that is not a whole number of 32-bit words is accepted and decodes to other commands than supplied",
+              None if rom is None else rom["cmds"], [" ".join(t), " ".join(tail)])
+
+
 # ------------------------------------------------------------------------------------------------ run
 def run(ck, only=None):
     import logging
@@ -595,6 +616,8 @@ def run(ck, only=None):
             s.note(spec)
             if "cfg" in spec:
                 run_config_case(ck, drv, s, spec)
+            elif spec.get("edge") == "fuses":
+                check_fuses_edge(ck, drv, s, spec)
             else:
                 check_history(ck, drv, s, spec, tamper=t)
         return
@@ -748,25 +771,10 @@ def run(ck, only=None):
                    "copy / configureMemory must load with memory id 0; timestamp 0 (= now) containers are "
                    "consistent (also sampled in `histories`); non-trivial = distinct case")
     for n in (1, 2, 3, 5, 6, 7, 17, 18, 19, 21):
-        spec = gen_spec(rng, ops=[])
-        t = ["fuses", "16", hexs(rng.randbytes(n))]
-        tail = ["execute", "4096"]
-        se.note((spec, t), cls="fuses-partial-word")
-        built = pyres(build_real, spec)
-        if built[0] != "ok" or drv is None:
-            continue
-        sb = built[1][0]
-        r = pyres(lambda: (sb.sb_commands.add_command(mk_cmd(t)), sb.sb_commands.add_command(mk_cmd(tail))))
-        se.compare((spec, t), r[0], drv.ask("enc " + " ".join(t))[:7], "constructor of PROGRAM_FUSES with a partial word: implementation vs model")
-        if r[0] == "E:spsdk":
-            continue  # refused: nothing is built
-        res = pyres(sb.export)
-        if not se.expect(res[0] == "ok", (spec, t), "export raises for PROGRAM_FUSES data that was accepted by the constructor", res):
-            continue
-        rom = parse_rom(drv.ask(rom_line(dict(spec, ts=int(sb.timestamp)), res[1])))
-        se.expect(rom is not None and rom["cmds"] == [" ".join(t), " ".join(tail)], (spec, t),
-                  "PROGRAM_FUSES data that is not a whole number of 32-bit words is accepted and decodes to other commands than supplied",
-                  None if rom is None else rom["cmds"], [" ".join(t), " ".join(tail)])
+        spec = gen_spec(rng, ops=[["add", "fuses", "16", hexs(rng.randbytes(n))], ["add", "execute", "4096"], ["export"]])
+        spec["edge"] = "fuses"
+        se.note(spec, cls="fuses-partial-word")
+        check_fuses_edge(ck, drv, se, spec)
     for n in range(ck.budget(4, 24)):
         family = rng.choice(sorted(CFG_FAMILIES))
         spec = gen_spec(rng, ops=[["export"]])
@@ -778,10 +786,10 @@ def run(ck, only=None):
             cfg, expected = gen_config(rng, spec, family, ["copy", "cfgmem"], tmp)
             for it, exp in zip(cfg["commands"], expected):
                 if "copy" in it:
-                    it["copy"].pop("memoryIdFrom"), it["copy"].pop("memoryIdTo")
+                    it["copy"].pop("memoryIdFrom", None), it["copy"].pop("memoryIdTo", None)
                     exp[4], exp[5] = "0", "0"
                 else:
-                    it["configureMemory"].pop("memoryId")
+                    it["configureMemory"].pop("memoryId", None)
                     exp[2] = "0"
             spec.update(cfg=dict(cfg, containerOutputFile="out.sb3"), cfg_expected=expected, cfg_cli=n % 2 == 0,
                         cfg_files={f.name: f.read_bytes().hex() for f in sorted(tmp.iterdir()) if f.is_file()})
